@@ -1165,6 +1165,11 @@ static void run_decaps(int kind)
             any_corrupt = true;
             SIM_PROBE("fault_packet_corrupt");
         }
+        if (split != NULL && p->corrupt) {
+            /* keep the damage away from the PID: routing is not what a corrupt packet tests here */
+            d[1] = (uint8_t)((d[1] & 0xe0) | ((pid >> 8) & 0x1f));
+            d[2] = (uint8_t)pid;
+        }
         struct uref *uref = make_buffer(d, 188, p->segsel);
         if (uref == NULL)
             break;
@@ -1185,11 +1190,6 @@ static void run_decaps(int kind)
                 noise_sent++;
                 upipe_input(head, nu, NULL);
             }
-        }
-        if (split != NULL && p->corrupt) {
-            /* keep the damage away from the PID: routing is not what a corrupt packet tests here */
-            d[1] = (uint8_t)((d[1] & 0xe0) | ((pid >> 8) & 0x1f));
-            d[2] = (uint8_t)pid;
         }
         sim_ev("packet", (uint64_t)i, (uint64_t)p->pusi | (uint64_t)p->dup << 1 | (uint64_t)p->af_only << 2 | (uint64_t)p->corrupt << 3);
         if (p->fault && ((uint64_t)plan->cfg[CFG_FAULTS] & 1))
